@@ -283,6 +283,10 @@ Definition modA (i : nat) (f : arch -> arch) : MW unit := modify (fun s => s <| 
 
 Definition whenM (b : bool) (m : MW unit) : MW unit := if b then m else ret tt.
 
+(** Run [m]; if it fails, apply [h] to the state at the failure. *)
+Definition on_err {A} (m : MW A) (h : W -> W) : MW A :=
+  fun s => match m s with Ok a s' => Ok a s' | Err e s' => Err e (h s') end.
+
 Definition is_locked (s : W) : bool := lock_is_locked (w_lock s).
 Definition check_locked : MW unit := s <- get ;; guard (negb (is_locked s)) ELocked.
 Definition lockM : MW nat :=
@@ -297,6 +301,11 @@ Definition unlockM (b : nat) : MW unit :=
   | Some l' => put (s <| w_lock := l' |>)
   | None => fail EUnbalanced
   end.
+
+(** [defer w.unlock(lock)]: if the body panics, the lock bit is released while unwinding. *)
+Definition release_bit (b : nat) (s : W) : W :=
+  match lock_unlock (w_lock s) b with Some l' => s <| w_lock := l' |> | None => s end.
+Definition with_deferred_unlock {A} (b : nat) (m : MW A) : MW A := on_err m (release_bit b).
 
 Definition alive (s : W) (e : ent) : bool := pool_alive (w_pool s) e.
 Definition is_rel_comp (s : W) (c : nat) : bool :=
@@ -322,6 +331,14 @@ Fixpoint find_exact (s : W) (tabs : list nat) (rels : list rel) : res W (option 
       end
   end.
 
+(** checkRelationsDistinct: no relation component is named twice (a duplicate would let the count
+    check below accept a list that omits another relation). *)
+Fixpoint rels_distinct (rels : list rel) : bool :=
+  match rels with
+  | [] => true
+  | r :: rest => negb (memb (fst r) (map fst rest)) && rels_distinct rest
+  end.
+
 Definition arch_get_table (a : arch) (rels : list rel) : MW (option nat) :=
   match a_tables a with
   | [] => ret None
@@ -329,6 +346,7 @@ Definition arch_get_table (a : arch) (rels : list rel) : MW (option nat) :=
       if negb (arch_has_rels a) then ret (Some t0)
       else
         guard (negb (Nat.ltb (length rels) (a_numrel a))) ERelUnspec ;;;
+        guard (rels_distinct rels) ERelUnspec ;;;
         match rels with
         | [] => fail EIndex
         | (c, tg) :: _ =>
@@ -488,6 +506,11 @@ Fixpoint place_targets (a : arch) (rels : list rel) (targets : list ent) : optio
       end
   end.
 
+Definition register_targets (rels : list rel) : MW unit :=
+  forM_ rels (fun r => s <- get ;;
+    guard (Nat.ltb (fst (snd r)) (length (w_istarget s))) EIndex ;;;
+    modify (fun s => s <| w_istarget ::= upd (fst (snd r)) true |>)).
+
 Definition check_rel (r : rel) : MW unit :=
   s <- get ;;
   guard (is_rel_comp s (fst r)) ENotRelation ;;;
@@ -496,8 +519,10 @@ Definition check_rel (r : rel) : MW unit :=
 Definition create_table (aid : nat) (rels : list rel) : MW nat :=
   a <- getA aid ;;
   guard (negb (Nat.ltb (length rels) (a_numrel a))) ERelUnspec ;;;
+  guard (rels_distinct rels) ERelUnspec ;;;
   targets <- of_opt (place_targets a rels (repeat zero_ent (length (a_comps a)))) EIndex ;;
   forM_ rels check_rel ;;;
+  register_targets rels ;;;      (* targets are registered together with their table *)
   s <- get ;;
   tid <- (match rev (a_free a) with
           | f :: _ =>
@@ -590,11 +615,6 @@ Definition get_index (e : ent) : MW (nat * nat) :=
   | Some (None, _) => fail EIndex     (* maxTableID: tables[maxTableID] is out of range *)
   | None => fail EIndex
   end.
-
-Definition register_targets (rels : list rel) : MW unit :=
-  forM_ rels (fun r => s <- get ;;
-    guard (Nat.ltb (fst (snd r)) (length (w_istarget s))) EIndex ;;;
-    modify (fun s => s <| w_istarget ::= upd (fst (snd r)) true |>)).
 
 Definition pool_getM : MW ent :=
   s <- get ;;
@@ -1389,6 +1409,7 @@ Definition w_exchange_batch (fi : nat) (brels : list rel) (add rem : list nat) (
   check_locked ;;;
   guard (negb (is_nil add && is_nil rem)) ENoComps ;;;
   l <- lockM ;;
+  with_deferred_unlock l (
   tables <- get_batch_tables fi brels ;;
   bt <- (fix go (tabs : list nat) (acc : list (nat * nat * nat)) (rr : bool) : MW (list (nat * nat * nat) * bool) :=
            match tabs with
@@ -1438,7 +1459,7 @@ Definition w_exchange_batch (fi : nat) (brels : list rel) (add rem : list nat) (
         let '(otid, ntid, start, len) := b in
         om <- arch_mask_of_table otid ;; nm <- arch_mask_of_table ntid ;;
         es <- rows_of ntid start len ;;
-        fire_rows (fun e eo => fire_add EvAddRelations e om nm eo) es true))) ;;;
+        fire_rows (fun e eo => fire_add EvAddRelations e om nm eo) es true)))) ;;;
   unlockM l.
 
 (** setRelationsTable (as repaired: OnAddRelations entities are read from the new table). *)
@@ -1468,10 +1489,11 @@ Definition w_set_relations_batch (fi : nat) (brels : list rel) (rels : list rel)
   check_locked ;;;
   guard (negb (is_nil rels)) ENoComps ;;;
   l <- lockM ;;
-  tables <- get_batch_tables fi brels ;;
-  lens <- mapM tables (fun tid => t <- getT tid ;; ret (tid, t_len t)) ;;
-  forM_ lens (fun tl => if Nat.eqb (snd tl) 0 then ret tt else set_relations_table (fst tl) (snd tl) rels) ;;;
-  register_targets rels ;;;
+  with_deferred_unlock l (
+    tables <- get_batch_tables fi brels ;;
+    lens <- mapM tables (fun tid => t <- getT tid ;; ret (tid, t_len t)) ;;
+    forM_ lens (fun tl => if Nat.eqb (snd tl) 0 then ret tt else set_relations_table (fst tl) (snd tl) rels) ;;;
+    register_targets rels) ;;;
   unlockM l.
 
 (** ** Reset and Shrink *)
@@ -1611,10 +1633,6 @@ Fixpoint nt_fail_pos (s : W) (rels : list rel) (tables : list nat) (fuel pos : n
           end
       end
   end.
-
-(** Run [m]; if it fails, apply [h] to the state at the failure. *)
-Definition on_err {A} (m : MW A) (h : W -> W) : MW A :=
-  fun s => match m s with Ok a s' => Ok a s' | Err e s' => Err e (h s') end.
 
 (** nextTable: advance over [tables] from the cursor; [cached] closes the query when exhausted. *)
 Definition query_next_table (qi : nat) (tables : list nat) (cached : bool) : MW bool :=
